@@ -13,14 +13,14 @@ type agg struct {
 	runs, runsB                                   int
 	requests, ticks, switches, mapDec, maxTicks   int64
 	faults, probes, classes, cells                map[string]int64
-	schedules, planDigests                        map[string]bool
+	schedules, planDigests                        map[uint64]struct{}
 	opVariants                                    map[uint64]struct{}
 	sitesHit, sitesTotal, workers                 int
 }
 
 func newAgg() *agg {
 	return &agg{faults: map[string]int64{}, probes: map[string]int64{}, classes: map[string]int64{}, cells: map[string]int64{},
-		schedules: map[string]bool{}, planDigests: map[string]bool{}, opVariants: map[uint64]struct{}{}}
+		schedules: map[uint64]struct{}{}, planDigests: map[uint64]struct{}{}, opVariants: map[uint64]struct{}{}}
 }
 
 func (g *agg) absorb(a, b *runOutcome) {
@@ -46,9 +46,9 @@ func (g *agg) absorb(a, b *runOutcome) {
 			g.cells[k] += v
 		}
 		for _, s := range r.Stats.Schedules {
-			g.schedules[s] = true
+			g.schedules[hash64(s)] = struct{}{}
 		}
-		g.planDigests[r.PlanDigest] = true
+		g.planDigests[hash64(r.PlanDigest)] = struct{}{}
 		// a case is non-trivial when its run exercised a varied dimension at all
 		// (non-sorted map order, a fault, an interleaving, a repetition) and produced responses
 		if len(r.Stats.Faults) > 0 || r.Stats.Switches > 0 {
